@@ -129,7 +129,30 @@ def register(w):
     register_pipeline(w)
 
 
+def register_bounded_constants(w):
+    """Constant binding / promotion (bind_const_for_var, _bind_literal_value_for_var, _promote_float_array, ir_postprocess) is
+    not under contract: a bounded stand-in runs double-precision exports with near-equal float64 literals (never counted as proved)."""
+    def custom(world, c, out):
+        import time
+        from pyvc.run import run_witness
+        t0 = time.time()
+        for oname, wn, bound in (("float64_literals_survive_a_double_precision_export_exactly", "C09_literal_precision_family",
+                                  "4 programs (top level, fori_loop body, cond branch, @onnx_function body) with pairs of literals equal to float32 resolution, x64 flag off/on, 2 inputs each; compared with float64 numpy at 1e-13"),
+                                 ("function_body_constants_follow_the_requested_precision", "C09_function_body_constants_follow_precision", "one @onnx_function body, both precision settings")):
+            holds, detail = run_witness(wn, timeout=900)
+            d = {"oid": f"jax2onnx.converter.ir_context:IRContext.bind_const_for_var+_bind_literal_value_for_var#bounded:{oname}", "kind": "bounded",
+                 "status": "discharged" if holds else ("refuted" if holds is False else "unknown"), "backend": "enumerated", "time": time.time() - t0, "instances": 1, "trivial": 0,
+                 "bounded": bound, "note": f"constant binding is not under contract; the real export is run on an enumerated family; {detail}"[:500]}
+            if holds is False:
+                d.update(args={"witness": wn}, replay={"reproduced": True, "detail": detail}, formula="", model=detail)
+            out["obls"].append(d)
+        out["paths"], out["time"] = 1, time.time() - t0
+        return out
+    w.add_contract(Contract("jax2onnx.converter.ir_context:<bounded-constants>", kind="custom", custom=custom, props=["C09"], witnesses=["C09_literal_precision_family"]))
+
+
 def register_pipeline(w):
+    register_bounded_constants(w)
     """conversion_api.to_onnx: every pipeline stage (tracing, constant binding, lowering, finalisation) runs
     with the JAX x64 flag equal to enable_double_precision, in the documented order."""
     from specs import opaque
